@@ -88,6 +88,7 @@ type TaskCtx struct {
 	// yield and the count at which the next one is due (0: none)
 	yieldCount uint32
 	yieldAt    uint32
+	noYield    int // > 0: inside a region that must not be pre-empted (sync.Once.Do)
 }
 
 type Strategy struct {
@@ -246,7 +247,7 @@ func (tc *TaskCtx) Park(k Kind, a, b uint32, s string) Reply {
 // YieldPoint is called between any two statements of the engine (instrumented build).
 // It parks only when the scheduler has scheduled a forced pre-emption for this task.
 func (tc *TaskCtx) YieldPoint() {
-	if tc.yieldAt == 0 || tc.aborted {
+	if tc.yieldAt == 0 || tc.aborted || tc.noYield > 0 {
 		return
 	}
 	tc.yieldCount++
@@ -283,7 +284,14 @@ func (s *Sched) recv() *Msg {
 }
 
 func NewSched(tape *Tape, env Env) *Sched {
-	return &Sched{tape: tape, env: env, MaxSteps: 4000, Trace: newHasher()}
+	s := &Sched{tape: tape, env: env, MaxSteps: 4000, Trace: newHasher()}
+	if Instrumented {
+		// statement-level pre-emption (instrumented build): per run either off or a mean gap
+		// of 15 / 150 / 1500 statements between forced yields, a few per task and phase
+		s.YieldGap = []int{0, 15, 150, 1500}[tape.Draw(4)]
+		s.YieldBudget = 2 + tape.Draw(5)
+	}
+	return s
 }
 
 // NextSeq hands out the next global event sequence number (scheduler goroutine only).
